@@ -120,6 +120,7 @@ class Interp:
         self.observers = {}     # fn id -> callable(interp, st, args, site)   (called before the call is executed)
         self.agg_hooks = []     # callable(interp, st, path, variant, fields, site)
         self.panic_hooks = []
+        self.return_hooks = []  # callable(interp, fn, depth, results) at every return of an inlined crate function
         self.cur_entry = None
         self.stack = []
         self._fid = itertools.count(1)
@@ -144,7 +145,9 @@ class Interp:
     def site(self, fn, kind, sub, bb, si, span):
         """obligation record for a program point; ordinal = index among same (kind,sub) in the function, MIR order"""
         table = self._ordtable(fn)
-        ordinal = table.get((self._CALLKINDS.get(kind, kind), sub, bb, si), 0)
+        ordinal = table.get((self._CALLKINDS.get(kind, kind), sub, bb, si))
+        if ordinal is None:
+            ordinal = table.get(('CALL', sub, bb, si), 0)
         key = (kind, fn, sub, ordinal)
         o = self.obl.get(key)
         if o is None:
@@ -1063,6 +1066,8 @@ class Interp:
                 v = self._relocate(s, fid, v, {})
                 del s.frames[fid]
             out.append((s, v))
+        for h in self.return_hooks:
+            h(self, fn, len(self.stack), out)
         part = self.return_partition.get(fn)
         if part is not None and len(out) > 1:
             groups = {}
